@@ -6,6 +6,9 @@ small tuples (JSON-able, lists after a JSON round trip):
   ('c', v)                      a plain constant argument
   ('lc', v)                     a traced constant, trace(v)
   ('f', name)                   a traced fixture callable, trace(fixtures.name)
+  ('k', name)                   a plain constant fixtures.opaque(name): unhashable
+                                and not value-equal across serialised copies
+  ('lk', name)                  the same, traced: trace(fixtures.opaque(name))
   ('v', slot)                   a run-time value taken from env[slot] (handles)
   ('call', fn, args, kwargs, flag)   fn(*args, **kwargs); flag '' | 'c' | 'l'
                                 (cache_result_ / lazy_result_); kwargs = pairs
@@ -95,6 +98,10 @@ def cache_key(ast):
     return ('id', repr(_tup(ast))) if _unhashable(ast[1]) else ('lc', ast[1])
   if t in ('f', 'v'):
     return (t, ast[1])
+  if t in ('k', 'lk'):
+    # never by value: the identity of the traced constant (of the call object
+    # when it is a direct plain argument, see below)
+    return ('id', repr(_tup(ast)))
   if t == 'attr':
     fn, args, kwargs = ('builtin', 'getattr'), [ast[1], ('c', ast[2])], ()
   elif t == 'item':
@@ -102,7 +109,7 @@ def cache_key(ast):
   else:
     fn, args, kwargs = cache_key(ast[1]), ast[2], ast[3]
   for a in list(args) + [v for _, v in kwargs]:
-    if a[0] == 'c' and _unhashable(a[1]):
+    if a[0] == 'k' or (a[0] == 'c' and _unhashable(a[1])):
       return ('id', repr(_tup(ast)))
   return ('call', fn, tuple(cache_key(a) for a in args),
           tuple((k, cache_key(v)) for k, v in kwargs))
@@ -152,6 +159,8 @@ class Mirror:
       return ast[1]
     if t == 'f':
       return getattr(fx, ast[1])
+    if t in ('k', 'lk'):
+      return fx.opaque(ast[1])
     if t == 'v':
       return self.post(self.env[ast[1]])
     if t == 'attr':
@@ -213,6 +222,12 @@ def normalise(v, is_handle, deref):
             normalise(v.b, is_handle, deref)]
   if isinstance(v, fx.Scale):
     return ['Scale', v.k]
+  if isinstance(v, fx.Tok):
+    return ['Tok', v.name]
+  if isinstance(v, fx.np.ndarray):
+    return ['ndarray', v.tolist()]
+  if isinstance(v, fx.np.generic):
+    return ['npscalar', v.item()]
   if callable(v):
     return ['callable', getattr(v, '__qualname__', type(v).__name__)]
   return ['other', type(v).__name__]
